@@ -16,12 +16,13 @@ Round 5 (hunt): penalty_parser's renames are whole-name substitutions into
 names bound in generate_conditions' namespace (shared with C13.k).
 Round 6: the constraints side pairs '!=' partners in both directions (decision
 table shared with C13.a).
+Review of the repairs: penalty_parser parenthesises the bound before the tolerance is appended (C14.h).
 NOT decided: values of the generated functions.
 """
 import ast
 
 from ..core import rule
-from ..srcmodel import AnalysisError, walk_no_nested, unparse, norm_stmt
+from ..srcmodel import AnalysisError, walk_no_nested, unparse, norm_stmt, parent
 from .. import terms as T
 from .common import *
 from .symtab import *
@@ -165,3 +166,42 @@ def the_constraints_side_knows_every_forbidden_value(ctx):
     """"applying the generated constraints function drives the penalty of the same text to zero" also for texts that mix '!=' with '>=' / '<=': the inclusive bounds are nudged off a value a '!=' line forbids, and the list of forbidden values pairs each left-hand side with its partners in BOTH directions (x0 != x1 forbids x1 for x0 and x0 for x1); decision table of constraints_parser shared with C13.a"""
     from .c13 import parser_decision_table
     parser_decision_table(ctx)
+
+
+@rule('C14.h', min_instances=1)
+def the_bound_of_a_condition_is_one_operand(ctx):
+    """for 'xi < f' / 'xi > f' penalty_parser appends ' - <tolerance>' / ' + <tolerance>' to the TEXT of f and subtracts the sum from xi: f is any expression, so unless its text is parenthesised first the appended term binds only to the last operand of an `or`, `and`, comparison, conditional expression or lambda ('x0 < x1 or 2' at (3, 3): the tolerance went to the 2, the strict relation was measured as satisfied). Before the statement that appends the tolerance, on every path on which a tolerance is appended (eps non-empty), the entry has been replaced by its parenthesised text '(%s)' % <entry> - as constraints_parser does (C13.j)"""
+    f = ctx.func('mystic.symbolic:penalty_parser')
+    aug = [s for s in stmts_of(f.node) if isinstance(s, ast.AugAssign) and isinstance(s.op, ast.Add) and 'rhs' in unparse(s.target) and '_tol' in unparse(s.value)]
+    ctx.need(aug, 'penalty_parser: the statement that appends the tolerance to the bound is not found')
+    for a in aug:
+        tgt = ''.join(unparse(a.target).split())
+        blk = parent(a)
+        body = None
+        for fld in ('body', 'orelse', 'finalbody'):
+            if a in getattr(blk, fld, []):
+                body = getattr(blk, fld)
+        ctx.need(body is not None, 'penalty_parser: the block of the tolerance statement is not found')
+        before = body[:body.index(a)]
+
+        def parenthesises(s):
+            return isinstance(s, ast.Assign) and len(s.targets) == 1 and ''.join(unparse(s.targets[0]).split()) == tgt and isinstance(s.value, ast.BinOp) and isinstance(s.value.op, ast.Mod) \
+                and isinstance(s.value.left, ast.Constant) and isinstance(s.value.left.value, str) and ''.join(s.value.left.value.split()) == '(%s)' and ''.join(unparse(s.value.right).split()) == tgt
+        ok_ = False
+        for s in reversed(before):
+            if parenthesises(s):
+                ok_ = True
+                break
+            # guarded by the tolerance text itself (nothing is appended when it is empty): if eps: <entry> = '(%s)' % <entry>
+            if isinstance(s, ast.If) and not s.orelse and isinstance(s.test, ast.Name) and s.test.id in {n_.id for n_ in ast.walk(a.value) if isinstance(n_, ast.Name)} and any(parenthesises(x) for x in s.body):
+                ok_ = True
+                break
+            if tgt in ''.join(unparse(s).split()) and not isinstance(s, ast.Expr):
+                # the entry is (re)written by something else in between: is it created parenthesised?
+                if isinstance(s, ast.Assign) and isinstance(s.value, ast.Dict):
+                    vals = [v for k, v in zip(s.value.keys, s.value.values) if isinstance(k, ast.Constant) and k.value == 'rhs']
+                    ok_ = bool(vals) and isinstance(vals[0], ast.BinOp) and isinstance(vals[0].op, ast.Mod) and isinstance(vals[0].left, ast.Constant) and ''.join(str(vals[0].left.value).split()) == '(%s)'
+                break
+        ctx.check(ok_, 'penalty_parser#bound-is-one-operand', "the bound is parenthesised before ' +/- _tol(...)' is appended",
+                  "penalty_parser appends the tolerance to the bare text of the bound (%s): for a bound that ends in a lower-precedence operand ('x0 < x1 or 2', 'x0 > a if b else c') the tolerance belongs to that operand only and a violated strict inequality is measured as satisfied"
+                  % norm_stmt(a)[:80], f, a)
